@@ -1,7 +1,7 @@
 (* Props/C14.v — Graceful shutdown: in-flight requests finish, nothing new starts, waiter woken.
    Only statements.  Models: Async/WaitGroup.v (WaitGroupFuture / TaskToken of src/async_io/util.rs, with a
    token drop forced into each window of poll) and Async/Conn.v (Token::run with the stop listener). *)
-From FV Require Import Base.Bytes Parser.ReqModel Parser.StreamModel Async.Conn Async.ConnWrites Async.ConnTotal Async.ConnReads Async.LoopTargets2 Async.LoopProofs2 Async.ConnLoop Async.WaitGroup Async.SyncTargets Async.SyncProofs Async.LogTargets Async.ShutdownTargets Async.ShutdownProofs.
+From FV Require Import Base.Bytes Parser.ReqModel Parser.StreamModel Async.Conn Async.ConnWrites Async.ConnTotal Async.ConnReads Async.LoopTargets2 Async.LoopProofs2 Async.ConnLoop Async.WaitGroup Async.SyncTargets Async.SyncProofs Async.LogTargets Async.ShutdownTargets Async.ShutdownProofs Codec.Bodies Parser.ReqWire Parser.ReqTargets Async.ReadsWTargets Async.FrameTargets Async.EpilogueTargets Async.ShutdownAnswerTargets Async.ShutdownAnswerProofs.
 
 (* the representation invariant holds after every history, for every number of tokens and every
    placement of token drops into the windows of WaitGroupFuture::poll *)
@@ -129,4 +129,36 @@ Theorem C14_shutdown_cut_example :
     wlog w1' = wlog w2' ++ skipn 48 (wlog w1') /\
     length (wlog w2') = 48%nat /\ length (wlog w1') = 96%nat /\ consumed w2' = 48 /\ consumed w1' = 95.
 Proof. exact shutdown_cut_ex. Qed.
+
+(* 'in-flight requests finish', on the DECODED transport log (corollary of C14_shutdown_cut and
+   C07_epilogue_records): on a transport without write faults, with handlers that await their reads and write
+   to Stdout / Stderr, in the run with a shutdown requested at any moment every handler invocation that was
+   closed owns a stretch of the log that decodes completely and contains exactly one EndRequest of its id
+   (last, after the empty stream records); and either the invocations are the undisturbed run's, or the task
+   returned with EVERY invocation it started closed - none cut short - and these are an initial segment of the
+   undisturbed run's *)
+Theorem C14_shutdown_answers_inflight :
+  forall (norm : bytes -> bytes) (maxc : N) (fuel : nat) (B : N) (scripts : list (list N)) (w1 w2 : world),
+  B < SIZE_LIMIT - 8 ->
+  world_ok w1 ->
+  wlog w1 = [] ->
+  no_fault (wscript w1) ->
+  stop_at w1 = 0 ->
+  stopped w1 = false ->
+  scripts_ok false scripts ->
+  Forall writes_std scripts ->
+  Forall no_abandoned_read scripts ->
+  same_io w1 w2 ->
+  let
+  '(o1, _, l1) := run_loop_log norm maxc fuel (new_parser B) scripts 0 w1 [] in
+   let
+   '(o2, w2', l2) := run_loop_log norm maxc fuel (new_parser B) scripts 0 w2 [] in
+    o1 = ORet \/ o1 = ODeadlock ->
+    Forall (fun s : served => match sv_closed s with
+                              | Some L2 => answered_once s L2
+                              | None => True
+                              end) l2 /\
+    (l2 = l1 \/
+     o2 = ORet /\ stopped w2' = true /\ Forall closed_entry l2 /\ (exists t : list served, l1 = l2 ++ t)).
+Proof. exact shutdown_answers_inflight. Qed.
 
